@@ -73,6 +73,7 @@ pub fn run(cmd: &str, thorough: bool) -> Option<Report> {
         "c19-sinks" => c19::sinks(thorough),
         "c02-reader" => c02::run(thorough),
         "c04-hostile" => c04::run(thorough),
+        "c04-depth" => c04::run_depth(thorough),
         "c05-encrypt" => c05::run(thorough),
         "c06-interop" => c06::run(thorough),
         "c07-histories" => c07::run(thorough),
@@ -99,7 +100,7 @@ fn replay(v: &serde_json::Value) -> i32 {
         "c03-strict" => c03::replay(r),
         "c19-sinks" => c19::replay(r),
         "c02-reader" => c02::replay(r),
-        "c04-hostile" => c04::replay(r),
+        "c04-hostile" | "c04-depth" => c04::replay(r),
         "c05-encrypt" => c05::replay(r),
         "c06-interop" => c06::replay(r),
         "c07-histories" => c07::replay(r),
